@@ -145,13 +145,187 @@ impl Check for C10Unique {
     }
 }
 
+// ---------------------------------------------------------------- big near-duplicates, repeated titles, many rows
+
+/// Values that are large and differ from each other only at the very end (so anything that
+/// compares or hashes a prefix, a digest or a truncated key confuses them), selections that
+/// share a title, and runs of thousands of rows (growth of the set of seen rows).
+#[derive(Clone, Debug, Serialize, Deserialize)]
+pub struct Case10W {
+    pub cols: usize,
+    /// 0 = distinct titles, 1 = all selections share one title, 2 = the first two share one
+    pub titles: u8,
+    pub csv: bool,
+    /// explicit rows: per cell (family, member, spelling); None = absent
+    pub rows: Vec<Vec<Option<(u8, u8, u8)>>>,
+    /// Some((n, seed)): n rows derived from the seed instead of `rows`
+    pub many: Option<(u32, u64)>,
+}
+
+pub const FAMILIES: u8 = 9;
+pub const MEMBERS: u8 = 3;
+
+/// text of member `m` of family `f` in spelling `sp` (spellings denote the same value)
+pub fn near_dup(f: u8, m: u8, sp: u8) -> String {
+    let tail = ["y", "z", "w"][m as usize % 3];
+    let x0 = if sp % 2 == 1 { "\\u0078" } else { "x" };
+    match f % FAMILIES {
+        0 => format!("\"{}{}{}\"", x0, "x".repeat(63), tail),
+        1 => format!("\"{}{}{}\"", x0, "ab".repeat(120), tail),
+        2 => format!("[{}{}]", if sp % 2 == 1 { "1.0," } else { "1," }.repeat(30), m),
+        3 => format!("{{\"a\":{{\"b\":{{\"c\":[1,2,{{\"d\":{}}}]}}}}}}", if sp % 2 == 1 { format!("{}.0", m) } else { format!("{}", m) }),
+        4 => format!("{{{}\"last\":{}}}", (0..12).map(|i| format!("\"m{}\":{},", i, i)).collect::<String>(), if sp % 2 == 1 { format!("{}e0", m) } else { format!("{}", m) }),
+        5 => format!("[\"{}\",\"{}{}{}\"]", "q".repeat(80), x0, "x".repeat(70), tail),
+        6 => format!("\"{}{}{}\"", x0, "x".repeat(63), ["", "yy", "yyy"][m as usize % 3]),
+        7 => ["1", "\"1\"", "true"][m as usize % 3].to_string() + if sp % 2 == 1 && m % 3 == 0 { ".0" } else { "" },
+        _ => format!("[[[[[[[[{}]]]]]]]]", if sp % 2 == 1 { format!("{}.00", m) } else { format!("{}", m) }),
+    }
+}
+
+pub struct C10Wide;
+impl C10Wide {
+    fn cells(c: &Case10W) -> Vec<Vec<Option<(u8, u8, u8)>>> {
+        match c.many {
+            None => c.rows.clone(),
+            Some((n, seed)) => {
+                let mut x = seed | 1;
+                let mut next = || {
+                    x ^= x << 13;
+                    x ^= x >> 7;
+                    x ^= x << 17;
+                    x
+                };
+                (0..n)
+                    .map(|_| {
+                        (0..c.cols.max(1))
+                            .map(|_| {
+                                let h = next();
+                                if c.cols > 0 && h % 11 == 0 {
+                                    None
+                                } else {
+                                    Some((((h >> 8) % FAMILIES as u64) as u8, ((h >> 16) % MEMBERS as u64) as u8, ((h >> 24) % 2) as u8))
+                                }
+                            })
+                            .collect()
+                    })
+                    .collect()
+            }
+        }
+    }
+}
+impl Check for C10Wide {
+    type Case = Case10W;
+    fn name(&self) -> &'static str {
+        "C10.unique_wide"
+    }
+    fn cases(&self, tier: Tier) -> u64 {
+        tier.pick(12_000, 300_000)
+    }
+    fn strategy(&self, t: Tier) -> BoxedStrategy<Case10W> {
+        let max_many: u32 = t.pick(5_000, 70_000);
+        let cell = (0u8..12, 0u8..FAMILIES, 0u8..MEMBERS, 0u8..2);
+        let explicit = (0usize..=3, 0u8..3, prop::bool::weighted(0.25), vec(0u8..FAMILIES, 1..3), vec(vec(cell, 3), 0..=40)).prop_map(|(cols, titles, csv, fams, rows)| {
+            let width = cols.max(1);
+            let rows = rows.iter().map(|r| r.iter().take(width).map(|(a, f, m, sp)| if cols > 0 && *a < 2 { None } else { Some((fams[*f as usize % fams.len()], *m, *sp)) }).collect()).collect();
+            Case10W { cols, titles, csv: csv && cols > 0, rows, many: None }
+        });
+        let many = (0usize..=2, 0u8..3, prop::bool::weighted(0.2), 1_000u32..max_many, any::<u64>()).prop_map(|(cols, titles, csv, n, seed)| Case10W { cols, titles, csv: csv && cols > 0, rows: vec![], many: Some((n, seed)) });
+        prop_oneof![60 => explicit, 1 => many].boxed()
+    }
+    fn check(&self, case: &Case10W) -> CaseResult {
+        let cells = Self::cells(case);
+        let mut input = String::new();
+        for r in &cells {
+            if case.cols == 0 {
+                let (f, m, sp) = r[0].unwrap_or((0, 0, 0));
+                input.push_str(&near_dup(f, m, sp));
+            } else {
+                let members: Vec<String> = r.iter().enumerate().filter_map(|(c, v)| v.map(|(f, m, sp)| format!("\"c{}\":{}", c, near_dup(f, m, sp)))).collect();
+                input.push_str(&format!("{{{}}}", members.join(",")));
+            }
+            input.push('\n');
+        }
+        let title = |c: usize| match case.titles {
+            1 => "t".to_string(),
+            2 if c < 2 => "t".to_string(),
+            _ => format!("c{}", c),
+        };
+        let mut args: Vec<String> = (0..case.cols).map(|c| format!("--select=.c{}={}", c, title(c))).collect();
+        if case.csv {
+            args.push("--output-style=csv".into());
+        }
+        let plain = run(&args, input.as_bytes());
+        args.push("--unique".into());
+        let uniq = run(&args, input.as_bytes());
+        if !plain.res.is_ok() || !uniq.res.is_ok() {
+            return CaseResult::Fail(format!("jawk failed: {} / {} (args {:?})", plain.res.short(), uniq.res.short(), args));
+        }
+        let mut all = lines(&plain.stdout);
+        let mut got = lines(&uniq.stdout);
+        if case.csv {
+            // the header row comes first in both runs
+            if all.is_empty() || got.is_empty() || all[0] != got[0] {
+                return CaseResult::Fail(format!("csv header differs or is missing with --unique (args {:?}): {} vs {}", args, esc_trunc(&plain.stdout, 100), esc_trunc(&uniq.stdout, 100)));
+            }
+            all.remove(0);
+            got.remove(0);
+        }
+        if all.len() != cells.len() {
+            return CaseResult::Fail(format!("{} rows for {} inputs without --unique (args {:?})", all.len(), cells.len(), args));
+        }
+        // equal = same family and member in every column (absent only equals absent)
+        let key = |r: &Vec<Option<(u8, u8, u8)>>| -> Vec<Option<(u8, u8)>> { r.iter().map(|c| c.map(|(f, m, _)| if f % FAMILIES == 7 { (f, m % 3) } else { (f, m) })).collect() };
+        let mut seen: std::collections::HashSet<Vec<Option<(u8, u8)>>> = std::collections::HashSet::new();
+        let mut keep: Vec<usize> = Vec::new();
+        let mut respelled = false;
+        let mut first_text: std::collections::HashMap<Vec<Option<(u8, u8)>>, usize> = std::collections::HashMap::new();
+        for (i, r) in cells.iter().enumerate() {
+            let k = key(r);
+            if seen.insert(k.clone()) {
+                keep.push(i);
+                first_text.insert(k, i);
+            } else if cells[first_text[&k]] != *r {
+                respelled = true;
+            }
+        }
+        let exp: Vec<&[u8]> = keep.iter().map(|i| all[*i]).collect();
+        let near = keep.iter().any(|i| keep.iter().any(|j| i != j && cells[*i].iter().zip(cells[*j].iter()).any(|(a, b)| matches!((a, b), (Some(x), Some(y)) if x.0 == y.0 && x.1 != y.1))));
+        let removed = cells.len() - keep.len();
+        if got != exp {
+            let first = got.iter().zip(exp.iter()).position(|(a, b)| a != b).unwrap_or(got.len().min(exp.len()));
+            return CaseResult::Fail(format!(
+                "--unique output is not the first-occurrence filter of the plain output (args {:?}, {} input rows): expected {} rows, got {}; first difference at output row {}: got {} expected {}",
+                args,
+                cells.len(),
+                exp.len(),
+                got.len(),
+                first,
+                got.get(first).map(|l| esc_trunc(l, 160)).unwrap_or_default(),
+                exp.get(first).map(|l| esc_trunc(l, 160)).unwrap_or_default()
+            ));
+        }
+        CaseResult::Pass(
+            Info::new(removed > 0 && near)
+                .class(["no_selection", "one_selection", "two_selections", "three_selections"][case.cols])
+                .class_if(case.titles > 0 && case.cols >= 2, "selections_share_a_title")
+                .class_if(case.csv, "csv")
+                .class_if(respelled, "duplicate_with_different_spelling")
+                .class_if(near, "near_duplicates_both_kept")
+                .class_if(case.many.is_some(), "thousands_of_rows")
+                .class_if(cells.len() > 65_536, "more_than_65536_rows")
+                .obs(json!({"rows": cells.len(), "kept": keep.len()})),
+        )
+    }
+}
+
 pub fn run_all(ctx: &mut Ctx) {
-    ctx.rule = "C10.equality: jawk's = matrix over the whole universe must be an equivalence and agree with structural/numeric equality (exhaustive over pairs). C10.unique: 0..40 rows whose 0..3 selected values come from a per-case pool of 1..6 universe values (numerically equal spellings, escape variants, nested equal collections) or are absent; oracle: output with --unique = first-occurrence filter of the output without it under jawk's own = relation per selected value (absent only equals absent). non-trivial = at least one removed duplicate whose text differs from its first occurrence and >= 2 kept rows".into();
+    ctx.rule = "C10.equality: jawk's = matrix over the whole universe must be an equivalence and agree with structural/numeric equality (exhaustive over pairs). C10.unique: 0..40 rows whose 0..3 selected values come from a per-case pool of 1..6 universe values (numerically equal spellings, escape variants, nested equal collections) or are absent; oracle: output with --unique = first-occurrence filter of the output without it under jawk's own = relation per selected value (absent only equals absent). non-trivial = at least one removed duplicate whose text differs from its first occurrence and >= 2 kept rows. C10.unique_wide: rows whose 0..3 selected values are large near-duplicates (nine families: 65- and 241-character strings, 31-element arrays, 13-member objects, depth-8 nesting, each with three members that differ only at the very end, and two spellings per member), selections that share a title, JSON or csv output, 0..40 explicit rows or 1000..5000 (70000 thorough) rows derived from a seed; oracle: first-occurrence filter of the plain output under equality by (family, member) per column; non-trivial = something was removed and two kept rows differ only in the tail of a value".into();
     ctx.assumptions = vec!["universe excludes -0 and member-order permutations (quantifier)".into()];
     run_equality(ctx);
     C10Unique.run(ctx);
+    C10Wide.run(ctx);
 }
 
 pub fn checks() -> Vec<Box<dyn DynCheck>> {
-    vec![Box::new(C10Unique)]
+    vec![Box::new(C10Unique), Box::new(C10Wide)]
 }
